@@ -1,19 +1,52 @@
 /-
-  C09 — Fail loud: a failed block is never swallowed, and never hangs or leaks (interim theorem set on the scheduler
-  machine; the reachable-state theorems - progress under faults, locks free at the end, every job finishes, ok implies
-  all written - are in Props/C04.lean's full set when complete).
+  C09 — Fail loud: a failed block is never swallowed, and never hangs or leaks.
+
+  On the block fan-out machine of Model/Sched.lean with an arbitrary fault plan, for every number of threads, every
+  job list and every schedule (see Props/C04.lean for `Reachable`, the lock invariant and `progress`).
 -/
-import Homonim.Model.Sched
-import Mathlib.Tactic.Linarith
+import Homonim.Props.C04
 
 namespace Homonim
 
-/-- **Fail loud**: if any finished job failed, the caller sees an exception (`future.result()` re-raises) -/
+/-- **No deadlock under faults**: whatever steps fail, every reachable non-final state has an enabled thread -/
+theorem no_deadlock_under_faults (param : Bool) (faults : Faults) (jobs : List Nat) (T : Nat) (hT : 0 < T) (s : SState)
+    (h : Reachable param faults jobs T s) (hnf : s.final = false) : ∃ t, (step param faults s t).isSome = true :=
+  progress param faults jobs T hT s h hnf
+
+/-- **Locks are free at the end**: in a final reachable state no lock is held (also after failures) -/
+theorem locks_free_at_end (param : Bool) (faults : Faults) (jobs : List Nat) (T : Nat) (s : SState)
+    (h : Reachable param faults jobs T s) (hf : s.final = true) : s.locksFree = true := by
+  exact final_locksFree (reachable_inv param faults jobs T s h) hf
+
+/-- **Every submitted job finishes exactly once**: in a final reachable state the finished jobs are a permutation of the
+    submitted ones (a failure of one job does not cancel the others) -/
+theorem all_jobs_finish (param : Bool) (faults : Faults) (jobs : List Nat) (T : Nat) (s : SState)
+    (h : Reachable param faults jobs T s) (hf : s.final = true) : (s.done.map Prod.fst).Perm jobs := by
+  obtain ⟨sched, rfl⟩ := h
+  exact final_done_perm (jinv_run param faults jobs T sched) hf
+
+/-- **Fail loud**: if any finished job failed, the caller sees an exception -/
 theorem fail_loud (s : SState) (j pc : Nat) (h : (j, some pc) ∈ s.done) : s.outcome = .raised := by
-  unfold SState.outcome
-  have : s.done.any (fun d => d.2.isSome) = true := by
-    rw [List.any_eq_true]; exact ⟨(j, some pc), h, rfl⟩
-  simp [this]
+  exact outcome_raised_of_mem s j pc h
+
+/-- a job whose program contains a faulting `io`/`compute` step does fail when it is run to completion: in a final
+    reachable state it is recorded as failed at its first faulting step -/
+theorem faulty_job_fails (param : Bool) (faults : Faults) (jobs : List Nat) (T : Nat) (s : SState)
+    (h : Reachable param faults jobs T s) (hf : s.final = true) (j pc : Nat) (hj : j ∈ jobs)
+    (hfault : faults j pc = true)
+    (hinstr : (∃ r, instrAt param pc = some (.io r)) ∨ instrAt param pc = some .compute) :
+    ∃ pc', (j, some pc') ∈ s.done := by
+  obtain ⟨sched, rfl⟩ := h
+  exact final_faulty_fails (jinv_run param faults jobs T sched) hf hj hfault hinstr
+
+/-- **Outcome ok implies every block was written**: in a final reachable state with outcome `ok`, every submitted job
+    completed its corrected write (and its parameter write when a parameter image is requested) -/
+theorem ok_imp_all_written (param : Bool) (faults : Faults) (jobs : List Nat) (T : Nat) (s : SState)
+    (h : Reachable param faults jobs T s) (hf : s.final = true) (hok : s.outcome = .ok) (j : Nat) (hj : j ∈ jobs) :
+    (j, Res.C) ∈ s.writes ∧ (param = true → (j, Res.P) ∈ s.writes) := by
+  obtain ⟨sched, rfl⟩ := h
+  exact final_ok_written (jinv_run param faults jobs T sched) hf hok hj
+
 
 /-- conversely the outcome is `ok` only if no finished job failed -/
 theorem ok_imp_no_failure (s : SState) (h : s.outcome = .ok) : ∀ d ∈ s.done, d.2 = none := by
